@@ -146,6 +146,35 @@ pub fn brackets_stream(thorough: bool) -> Vec<TextCase> {
 /// string literals whose body mixes 1-, 2-, 3- and 4-byte characters with valid and invalid escapes at every distance
 /// 0..=14 characters from either end (byte offsets and character offsets differ; error paths are exercised as much
 /// as the accepting ones)
+/// lists of two and three string literals drawn from a pool of strings whose text is hard on a scanner (ending in a
+/// backslash, holding quotes, comment openers, invisible characters, line ends): what one literal contains must not change
+/// how the next one is read
+pub fn strlit_sequences() -> Vec<TextCase> {
+    let pool = [
+        "\"C:\\\\\"", "\"a\\\\\\\\\"", "\"\\\"\"", "\"a\\\"b\"", "\"//x\"", "\"/* x\"", "\"x */\"", "\"a\u{200b}b\"", "\"\u{feff}\"", "\"\u{2060}x\"", "\"a\nb\"", "\"a\r\nb\"",
+        "\"\"", "\" \"", "\"\\u{41}\"", "\"\u{2013}\"", "\"\u{201c}q\u{201d}\"", "\"[\"", "\"(\"", "\"{a: \"", "\"@k: i1;\"", "\"i1\"",
+    ];
+    let mut t = vec![];
+    for a in pool {
+        for b in pool {
+            t.push(format!("[{}, {}]", a, b));
+            t.push(format!("{} == {}", a, b));
+            t.push(format!("{{k: {}, j: {}}}", a, b));
+            t.push(format!("{} // c\n + {}", a, b));
+        }
+    }
+    for (i, a) in pool.iter().enumerate() {
+        for (j, b) in pool.iter().enumerate() {
+            for (k, c) in pool.iter().enumerate() {
+                if (i + 2 * j + 3 * k) % 5 == 0 {
+                    t.push(format!("[{}, {}, {}]", a, b, c));
+                }
+            }
+        }
+    }
+    t.into_iter().map(|text| TextCase { text, tag: "strlit-seq" }).collect()
+}
+
 pub fn strlit_stream(rng: &mut Rng, thorough: bool) -> Vec<TextCase> {
     let fillers = ["a", "é", "日", "😀"];
     let escapes = ["\\q", "\\d", "\\u{110000}", "\\u{D800}", "\\u{}", "\\u{zz}", "\\u", "\\u{41", "\\n", "\\\\", "\\\"", "\\u{41}", "\\u{1F600}", "\\'", "\\0", "\\x41"];
@@ -918,6 +947,7 @@ pub fn run_c06(rep: &mut Report, driver: &str, workers: usize, thorough: bool, s
     texts.extend(toks_stream(thorough));
     texts.extend(brackets_stream(thorough));
     texts.extend(strlit_stream(&mut rng, thorough));
+    texts.extend(strlit_sequences());
     texts.extend(mutation_stream(&mut rng, thorough));
     texts.extend(literal_stream(&mut rng, false));
     texts.extend(prec_stream());
@@ -976,6 +1006,7 @@ pub fn run_c08(rep: &mut Report, driver: &str, workers: usize, thorough: bool, s
     let mut rng = Rng::new(seed);
     let mut texts = literal_stream(&mut rng, thorough);
     texts.extend(strlit_stream(&mut rng, thorough));
+    texts.extend(strlit_sequences());
     texts.extend(chars_stream(thorough));
     let run = run_texts(texts, false, driver, workers);
     judge_texts("C08", "literals", "string literals mixing 1- to 4-byte characters with 16 valid / invalid escape forms at every distance 0..14 from either end; integers at every boundary and random i128 in four radices (upper/lower-case hex), out-of-range numerals, floats and decimals through Rust's / rust_decimal's own printers (shortest, exponent, every scale), limits of f64 (overflow to inf, subnormal, halfway cases), strings over the full Unicode range with each escapable character escaped or raw and every malformed escape, every keyword +- one identifier character, literal-prefix collisions (int inty i5 i5x f1e f1e5 d5x in inx …); all short strings over the literal alphabet — compared on the tree with canonical literal encodings (bit patterns, mantissa+scale, code points)", false, &run, "full", rep);
@@ -1095,6 +1126,7 @@ fn rule_vs_expr(prop: &str, rep: &mut Report, workers: usize, thorough: bool, se
         texts.extend(toks_stream(false));
     }
     texts.extend(strlit_stream(&mut rng, false));
+    texts.extend(strlit_sequences());
     texts.extend(literal_stream(&mut rng, thorough && prop == "C08"));
     for t in ["x * i1", "i1 * x", "x + i0", "x - i0", "x / i1", "x == none", "f(x) != none", "none == x", "if c then true else false", "--x", "!!x", "\"a\rb\"", "\"a\r\nb\"", "a and true", "false or a", "[x * i1, {k: x + i0}]",
         "\"line 1\r\nline 2\"", "\"a\nb\"", "\"a\tb\"", "\"a\u{85}b\"", "\"a\u{2028}b\"", "\"\r\"", "\"\r\n\"", "\"\n\r\"", "[\"a\rb\", \"c\r\nd\"]", "x == \"Main St 1\r\nSpringfield\"", "{k: \"a\r\"}", "\"a\r\" + \"\rb\"", "\" \r \"", "f(\"\r\")", "\"a\\rb\"",
@@ -1252,6 +1284,8 @@ pub fn run_c16(rep: &mut Report, driver: &str, workers: usize, thorough: bool, s
         texts.extend(brackets_stream(thorough));
         texts.extend(prec_stream());
         texts.extend(strlit_stream(&mut rng, false));
+        texts.extend(strlit_sequences());
+    texts.extend(strlit_sequences());
         // literals of every class at their limits (decimals the library rounds, identifiers shaped like literals: i5x f1e d5x)
         texts.extend(literal_stream(&mut rng, false));
         for n in ["i5x", "f5e", "f5e5x", "d1_a", "d5x", "f1e", "i5x.y", "f5e.0", "[f5e, d1_a]", "{i5x: f5e}", "f5e + i5x", "f5e(x)", ":i5x", "x.f5e", "x.i5"] {
